@@ -237,6 +237,8 @@ type vc8Case struct {
 	log  []string
 	cls  map[string]bool
 	nt   bool
+	// an id had all of its attributes deleted since the last restart
+	emptied bool
 }
 
 func (c *vc8Case) logf(format string, a ...interface{}) {
@@ -396,7 +398,7 @@ func (c *vc8Case) step(i int) {
 	idx := c.idxs[rapid.IntRange(0, len(c.idxs)-1).Draw(t, "idx")]
 	op := rapid.SampledFrom([]string{
 		"createField", "set", "set", "set", "set", "clear", "clearRow", "store", "store", "import", "import",
-		"importClear", "importValue", "importValue", "importRoaring", "importRoaring", "rowAttrs", "colAttrs", "deleteField", "recreateField",
+		"importClear", "importValue", "importValue", "importRoaring", "importRoaring", "rowAttrs", "colAttrs", "attrsEmpty", "attrsEmpty", "deleteField", "recreateField",
 		"recreateIndex", "reopen", "reopen",
 	}).Draw(t, "op")
 	bitFields := c.fieldsOf(idx, func(f *vc8Field) bool { return f.Typ != "int" })
@@ -740,8 +742,71 @@ func (c *vc8Case) step(i int) {
 		vc8applyAttr(f.rowAttrs, row, k, v)
 		c.logf("%s: %s", idx.Name, q)
 		c.cls["rowAttrs"] = true
+	case "attrsEmpty":
+		// delete every attribute of one row or column with nulls, so that the id is left
+		// without attributes (set one first when the model has none to delete)
+		rowFields := c.fieldsOf(idx, func(f *vc8Field) bool { return f.Typ == "set" || f.Typ == "mutex" || f.Typ == "time" })
+		onRow := len(rowFields) > 0 && rapid.Bool().Draw(t, "onRow")
+		var m map[string]map[string]interface{}
+		var f *vc8Field
+		var pool []string
+		if onRow {
+			f = rowFields[rapid.IntRange(0, len(rowFields)-1).Draw(t, "f")]
+			m, pool = f.rowAttrs, f.rowPool
+		} else {
+			m, pool = idx.colAttrs, c.colsWithBits(idx)
+			if len(pool) == 0 {
+				pool = []string{c.drawCol(idx, "col", false)}
+			}
+		}
+		var have []string
+		for _, id := range pool {
+			if len(m[id]) > 0 {
+				have = append(have, id)
+			}
+		}
+		var id string
+		if len(have) > 0 {
+			id = rapid.SampledFrom(have).Draw(t, "attrId")
+		} else {
+			id = rapid.SampledFrom(pool).Draw(t, "attrId")
+			var q string
+			if onRow {
+				q = fmt.Sprintf("SetRowAttrs(%s, %s, x=%d)", f.Name, vc8rowLit(f, id), 7)
+			} else {
+				q = fmt.Sprintf("SetColumnAttrs(%s, x=%d)", vc8colLit(idx, id), 7)
+			}
+			c.query(idx, q)
+			vc8applyAttr(m, id, "x", int64(7))
+			c.logf("%s: %s", idx.Name, q)
+		}
+		var keys []string
+		for k := range m[id] {
+			keys = append(keys, k)
+		}
+		sort.Strings(keys)
+		var nulls []string
+		for _, k := range keys {
+			nulls = append(nulls, k+"=null")
+		}
+		var q string
+		if onRow {
+			q = fmt.Sprintf("SetRowAttrs(%s, %s, %s)", f.Name, vc8rowLit(f, id), strings.Join(nulls, ", "))
+		} else {
+			q = fmt.Sprintf("SetColumnAttrs(%s, %s)", vc8colLit(idx, id), strings.Join(nulls, ", "))
+		}
+		c.query(idx, q)
+		for _, k := range keys {
+			vc8applyAttr(m, id, k, nil)
+		}
+		c.logf("%s: %s", idx.Name, q)
+		c.emptied = true
+		c.cls["attrs-emptied"] = true
 	case "colAttrs":
 		col := c.drawCol(idx, "col", false)
+		if cols := c.colsWithBits(idx); len(cols) > 0 && rapid.IntRange(0, 3).Draw(t, "colWithBit") != 0 {
+			col = rapid.SampledFrom(cols).Draw(t, "bitcol")
+		}
 		k, lit, v := vc8genAttr(t)
 		q := fmt.Sprintf("SetColumnAttrs(%s, %s=%s)", vc8colLit(idx, col), k, lit)
 		c.query(idx, q)
@@ -751,6 +816,26 @@ func (c *vc8Case) step(i int) {
 	case "reopen":
 		c.reopen()
 	}
+}
+
+// colsWithBits lists the columns that hold a bit in the standard view of some field
+// (their attributes are readable through Options(Row(..), columnAttrs=true)).
+func (c *vc8Case) colsWithBits(idx *vc8Index) []string {
+	m := map[string]bool{}
+	for _, n := range idx.order {
+		f := idx.fields[n]
+		if f.Typ == "int" || f.NoStd {
+			continue
+		}
+		for _, cs := range f.bits {
+			for col, v := range cs {
+				if v {
+					m[col] = true
+				}
+			}
+		}
+	}
+	return vc8sorted(m, !idx.Keys)
 }
 
 func (c *vc8Case) anyBits(idx *vc8Index) bool {
@@ -1127,8 +1212,10 @@ func (c *vc8Case) fieldBattery(idx *vc8Index, f *vc8Field) []vc8Probe {
 				}
 				ps = append(ps, c.probeRow(idx, fmt.Sprintf("Not(Row(%s=%s))", f.Name, vc8rowLit(f, row)), want, nil, false))
 			}
-			// column attributes of the columns of that row
-			resp = c.query(idx, fmt.Sprintf("Options(Row(%s=%s), columnAttrs=true)", f.Name, vc8rowLit(f, row)))
+		}
+		// column attributes of the columns of every populated row
+		for _, row := range f.rowsWithBits() {
+			resp := c.query(idx, fmt.Sprintf("Options(Row(%s=%s), columnAttrs=true)", f.Name, vc8rowLit(f, row)))
 			var gotA, wantA []string
 			for _, cas := range resp.ColumnAttrSets {
 				id := strconv.FormatUint(cas.ID, 10)
@@ -1383,6 +1470,11 @@ func (c *vc8Case) reopen() {
 		if len(idx.colAttrs) > 0 {
 			c.cls["restart:col-attrs"] = true
 		}
+	}
+	if c.emptied {
+		c.cls["restart:attrs-emptied-id"] = true
+		c.nt = true
+		c.emptied = false
 	}
 	if err := c.cmd.Reopen(); err != nil {
 		c.fatalf("Reopen: %v", err)
